@@ -205,12 +205,32 @@ func (j *job) exec(sl *slot) {
 				j.viols = append(j.viols, [2]string{"gocommand-pos", "(GoCommand option set) " + v[1]})
 			}
 		}
+		// round 5: the known finding is exactly "Pos too large by the length of the consumed GO separator"
+		// (C08_lossless_all_options_except). With the offsets corrected that way every clause must hold;
+		// whatever is left is not the known finding.
+		if len(vs) > 0 && !j.r.panicked && j.r.err == nil {
+			if r2, _, ok := unshiftGo(j.input, j.r); !ok {
+				j.viols = append(j.viols, [2]string{"gocommand-other", "(GoCommand option set) a Text is neither at its Pos nor at Pos minus the length of a GO separator that follows it: " + vs[0][1]})
+			} else {
+				for _, v := range oracle(j.os, j.input, r2) {
+					j.viols = append(j.viols, [2]string{"gocommand-other", "(GoCommand option set, offsets corrected by the GO separators) " + v[1]})
+					break
+				}
+			}
+		}
 		return
 	}
 	j.viols = vs
 	if e := driverEntry(j.os.name); e != nil {
 		if r2 := scanSafe(e, j.input); r2.canon() != j.obs {
 			j.viols = append(j.viols, [2]string{"entry-mismatch", fmt.Sprintf("entry point returns %q, Scanner with the dumped options %q", r2.canon(), j.obs)})
+		}
+	}
+	// the layer around the scanner (round 5): LocalFile.StmtDecls / Stmts and migrate.FileStmtDecls /
+	// FileStmts must return what the entry point returns (FileStmts / Stmts: its Texts).
+	if j.os.driver && (len(j.input) > 5 || len(j.id)%4 == 0) {
+		if msg := wrappersAgree(j.os.name, j.input, j.obs, j.r); msg != "" {
+			j.viols = append(j.viols, [2]string{"entry-mismatch", msg})
 		}
 	}
 	if j.r.dur > 5*time.Second {
@@ -268,4 +288,69 @@ func (rn *runner) flush() {
 		}
 	}
 	rn.q = rn.q[:0]
+}
+
+func driverOf(name string) migrate.Driver {
+	switch name {
+	case "mysql":
+		return (*mysql.Driver)(nil)
+	case "postgres":
+		return (*postgres.Driver)(nil)
+	case "sqlite":
+		return (*sqlite.Driver)(nil)
+	}
+	return nil
+}
+
+func textsCanon(ts []string, err error, panicked bool) string {
+	if panicked {
+		return "panic"
+	}
+	if err != nil {
+		return errCanon(err)
+	}
+	p := make([]string, len(ts))
+	for i, t := range ts {
+		p[i] = hx(t)
+	}
+	return fmt.Sprintf("ok %d %s", len(ts), strings.Join(p, " "))
+}
+
+// wrappersAgree: FileStmtDecls(drv, LocalFile) = ScanStmts of the driver (LocalFile.StmtDecls = migrate.Stmts
+// without a driver), FileStmts = the Texts of it; for the generic set also LocalFile.StmtDecls / Stmts.
+func wrappersAgree(name, input, obs string, r scanRes) string {
+	f := migrate.NewLocalFile("1.sql", []byte(input))
+	drv := driverOf(name)
+	if r2 := scanSafe(func(string) ([]*migrate.Stmt, error) { return migrate.FileStmtDecls(drv, f) }, input); r2.canon() != obs {
+		return fmt.Sprintf("migrate.FileStmtDecls returns %q, the scanner %q", r2.canon(), obs)
+	}
+	var want []string
+	for _, s := range r.stmts {
+		want = append(want, s.Text)
+	}
+	wantC := textsCanon(want, r.err, r.panicked)
+	texts := func(g func() ([]string, error)) (c string) {
+		defer func() {
+			if p := recover(); p != nil {
+				c = "panic"
+			}
+		}()
+		ts, err := g()
+		return textsCanon(ts, err, false)
+	}
+	if got := texts(func() ([]string, error) { return migrate.FileStmts(drv, f) }); got != wantC {
+		return fmt.Sprintf("migrate.FileStmts returns %q, the scanner's texts are %q", got, wantC)
+	}
+	if name == "generic" {
+		if r2 := scanSafe(func(string) ([]*migrate.Stmt, error) { return f.StmtDecls() }, input); r2.canon() != obs {
+			return fmt.Sprintf("LocalFile.StmtDecls returns %q, the scanner %q", r2.canon(), obs)
+		}
+		if got := texts(f.Stmts); got != wantC {
+			return fmt.Sprintf("LocalFile.Stmts returns %q, the scanner's texts are %q", got, wantC)
+		}
+		if string(f.Bytes()) != input {
+			return "LocalFile.Bytes changed by scanning"
+		}
+	}
+	return ""
 }
